@@ -15,6 +15,7 @@ import (
 	"verif/engine/vpipe"
 	"verif/engine/vs"
 	"verif/engine/vsync"
+	"verif/engine/vtime"
 	"verif/fw"
 	"verif/refws/deflate"
 	"verif/refws/frame"
@@ -630,6 +631,11 @@ type c07WParams struct {
 	// Sep: B is opened by its own task (it may be created while A's close is
 	// still in progress) instead of by the task that has just closed A.
 	Sep bool
+	// CloseFrame: A is not torn down but closed with a handshake: a Ping of A is parked in the
+	// transport (it holds the frame lock), A's writer is in the middle of its message and
+	// waits for that lock, Close queues too; the peer accepts bytes again at 1 s. B is opened
+	// as soon as A's Close frame is on the wire, while A's writer is still unwinding.
+	CloseFrame bool
 }
 
 func (p c07WParams) name() string {
@@ -638,6 +644,9 @@ func (p c07WParams) name() string {
 	}
 	if p.Sep {
 		return "wconc-sep/" + p.K.String()
+	}
+	if p.CloseFrame {
+		return "wconc-closeframe/" + p.K.String()
 	}
 	return "wconc/" + p.K.String()
 }
@@ -687,10 +696,27 @@ func c07WSetup(prm c07WParams) func(c *fw.Ctx, name string) explore.Setup {
 					// buffer, so A's writer parks in the transport inside its compressor
 					payloadA = c07Noise
 				}
-				w.GoHarness("writerA", true, func() { write(a, payloadA) })
+				if prm.CloseFrame {
+					pa.Window = 1
+					w.GoHarness("pingerA", false, func() { a.Ping(bg) })
+					w.GoHarness("writerA", true, func() {
+						pa.WaitOut("ping-begun", func(out []byte) bool { return len(out) > 0 })
+						write(a, payloadA)
+					})
+					w.GoHarness("closerA", true, func() {
+						pa.WaitOut("ping-begun", func(out []byte) bool { return len(out) > 0 })
+						a.Close(websocket.StatusNormalClosure, "")
+					})
+					w.GoHarness("drainerA", false, func() {
+						vtime.Sleep(time.Second)
+						pa.SetWindow(0)
+					})
+				} else {
+					w.GoHarness("writerA", true, func() { write(a, payloadA) })
+				}
 				ctx, cancel := vctx.WithCancel(bg)
 				cancel() // a context that is already over: the call gives up as soon as it has to wait for a lock
-				if !prm.Sep {
+				if !prm.Sep && !prm.CloseFrame {
 					w.GoHarness("failerA", true, func() { a.Ping(ctx) })
 				}
 				useB := func() {
@@ -714,6 +740,14 @@ func c07WSetup(prm c07WParams) func(c *fw.Ctx, name string) explore.Setup {
 						b.Close(websocket.StatusCode(4001), "bye") // the peer never answers: 5 s virtual
 					}
 					b.CloseNow()
+				}
+				if prm.CloseFrame {
+					w.GoHarness("openerB", true, func() {
+						if pa.WaitOut("close-frame-of-A", func(out []byte) bool { return hasOp(out, frame.OpClose) }) {
+							useB()
+						}
+					})
+					return
 				}
 				if prm.Sep {
 					w.GoHarness("closerA", true, func() { a.CloseNow() })
@@ -935,6 +969,11 @@ func c07Scenarios(tier string) []scenario {
 		}
 		prm.Cross = true
 		scs = append(scs, scenario{Name: prm.name(), Cfg: explore.Config{P: 1, Horizon: 60e9}, Setup: c07WSetup(prm)})
+		if k.Flate {
+			prm.Cross = false
+			prm.CloseFrame = true
+			scs = append(scs, scenario{Name: prm.name(), Cfg: explore.Config{P: 1, T: 1, Horizon: 60e9}, Setup: c07WSetup(prm)})
+		}
 	}
 	ks := []connCfg{{Client: false, Flate: true}, {Client: true, Flate: true}, {Client: false, Flate: true, CNCT: true, SNCT: true}, {Client: true, Flate: true, CNCT: true, SNCT: true}, {Client: true}}
 	// slices returned by Conn.Read, with and without an error, stay what they were while
